@@ -1,6 +1,7 @@
 import BddVerif.Props.C17
 import BddVerif.Lemmas.AlgoEq2RenDriver
 import BddVerif.Lemmas.ExactWalkC17
+import BddVerif.Lemmas.ExactWalkC17Complete
 #print axioms B.Props.C17.set_num_vars_safe
 #print axioms B.Props.C17.rename_variables_safe
 #print axioms B.Props.C17.rename_variable_safe
@@ -22,3 +23,5 @@ import BddVerif.Lemmas.ExactWalkC17
 #print axioms B.Props.C17.kept_canon
 #print axioms B.ExactWalk.sameFunctionUnder_sound
 #print axioms B.ExactWalk.sameFunctionUnder_sound_wfoB
+#print axioms B.ExactWalk.sameFunctionUnder_reject
+#print axioms B.ExactWalk.sameFunctionUnder_reject_wfoB
